@@ -38,7 +38,7 @@ def prepare(name, cfg, overrides=None):
             shutil.copy(os.path.join(SPEC_DIR, f), d)
     text = open(os.path.join(SPEC_DIR, cfg)).read()
     for k, v in (overrides or {}).items():
-        pat = re.compile(r"^(\s*)%s\s*(=|<-)\s*\S+\s*$" % re.escape(k), re.M)
+        pat = re.compile(r"^(\s*)%s\s*(=|<-)\s*\S.*$" % re.escape(k), re.M)
         if not pat.search(text):
             raise TlcFailure("cfg %s has no constant %s" % (cfg, k))
         text = pat.sub(lambda m: "%s%s %s %s" % (m.group(1), k, m.group(2), v), text)
